@@ -36,6 +36,8 @@ type hdrCtx struct {
 	// key accessor mode (T14): receiver k of type key.Key
 	keyMode bool
 	errOk   map[types.Object]string // err variables of `v, err := k.GetX(L)`: the name of their "is nil" boolean
+	nilable map[string]bool         // variables holding a key.Ops that may be the typed nil (option (list Z))
+	opsRet  bool                    // the function returns a key.Ops: option (list Z)
 }
 
 var claimsFields = map[string]string{"Expiration": "c_exp", "NotBefore": "c_nbf", "IssuedAt": "c_iat", "Issuer": "c_iss", "Audience": "c_aud"}
@@ -790,9 +792,118 @@ func (f *ftr) keyExpr(e ast.Expr) (term, bool) {
 
 // keyStmt: `v, err := k.GetInt(L)` / `v, _ := k.GetBytes(L)` on the receiver
 func (f *ftr) keyStmt(s ast.Stmt) ([]irStmt, bool) {
+	switch y := s.(type) {
+	case *ast.IfStmt:
+		// if v, ok := k[L]; ok { .. }
+		if a, ok := y.Init.(*ast.AssignStmt); ok && len(a.Lhs) == 2 && len(a.Rhs) == 1 && a.Tok == token.DEFINE {
+			ix, iok := a.Rhs[0].(*ast.IndexExpr)
+			v, vok := a.Lhs[0].(*ast.Ident)
+			o, ook := a.Lhs[1].(*ast.Ident)
+			c, cok := y.Cond.(*ast.Ident)
+			if iok && vok && ook && cok && c.Name == o.Name {
+				if id, ok := ix.X.(*ast.Ident); ok && id.Name == f.hdr.recv {
+					if l, ok := f.label(ix.Index); ok {
+						f.declare(v, v.Name)
+						var els []irStmt
+						if y.Else != nil {
+							els = f.lower([]ast.Stmt{y.Else})
+						}
+						return []irStmt{irMatch{scrut: "(lookup k (ilabel " + l + "))", arms: []irArm{{pat: "Some " + f.nameOf(v), bind: []string{f.nameOf(v)}, body: f.lower(y.Body.List)}}, def: els}}, true
+					}
+				}
+			}
+		}
+		return nil, false
+	case *ast.TypeSwitchStmt:
+		a, ok := y.Assign.(*ast.AssignStmt)
+		if !ok || len(a.Lhs) != 1 || len(a.Rhs) != 1 || y.Init != nil {
+			return nil, false
+		}
+		ta, ok := a.Rhs[0].(*ast.TypeAssertExpr)
+		if !ok || ta.Type != nil {
+			return nil, false
+		}
+		sv, ok := ta.X.(*ast.Ident)
+		if !ok {
+			return nil, false
+		}
+		m := irMatch{scrut: f.nameOf(sv)}
+		for _, cl := range y.Body.List {
+			cc := cl.(*ast.CaseClause)
+			if len(cc.List) != 1 {
+				f.fail(cc, "type switch clause with %d types", len(cc.List))
+				return nil, true
+			}
+			var pat string
+			switch types.ExprString(cc.List[0]) {
+			case "Ops":
+				pat = "VOps"
+			case "[]int":
+				pat = "VInts"
+			case "[]any":
+				pat = "VArr"
+			default:
+				f.fail(cc, "type switch on %s", types.ExprString(cc.List[0]))
+				return nil, true
+			}
+			// the clause's own variable (one implicit object per clause)
+			name := "x"
+			if obj := f.pi.p.TypesInfo.Implicits[cc]; obj != nil {
+				f.declared[obj.Name()]++
+				name = coqName(obj.Name())
+				if f.declared[obj.Name()] > 1 {
+					name = fmt.Sprintf("%s_%d", coqName(obj.Name()), f.declared[obj.Name()])
+				}
+				f.names[obj] = name
+			}
+			if pat == "VOps" {
+				f.hdr.nilable[name] = true
+			}
+			m.arms = append(m.arms, irArm{pat: pat + " " + name, bind: []string{name}, body: f.lower(cc.Body)})
+		}
+		return []irStmt{m}, true
+	case *ast.ReturnStmt:
+		if f.hdr.opsRet && len(y.Results) == 1 {
+			if isNilIdent(y.Results[0]) {
+				return []irStmt{irReturn{term{"None", true}}}, true
+			}
+			if id, ok := y.Results[0].(*ast.Ident); ok {
+				n := f.nameOf(id)
+				if f.hdr.nilable[n] {
+					return []irStmt{irReturn{term{n, true}}}, true
+				}
+				return []irStmt{irReturn{term{"(Some " + n + ")", true}}}, true
+			}
+		}
+		return nil, false
+	}
 	x, ok := s.(*ast.AssignStmt)
 	if !ok || len(x.Lhs) != 2 || len(x.Rhs) != 1 || x.Tok != token.DEFINE {
 		return nil, false
+	}
+	// op, err := ToInt(v)
+	if call, ok := x.Rhs[0].(*ast.CallExpr); ok {
+		if fn, ok := call.Fun.(*ast.Ident); ok && fn.Name == "ToInt" && len(call.Args) == 1 {
+			v, vok := x.Lhs[0].(*ast.Ident)
+			e, eok := x.Lhs[1].(*ast.Ident)
+			if vok && eok {
+				p, a := f.bind(f.expr(call.Args[0]))
+				if p != "" {
+					return nil, false
+				}
+				f.declare(v, v.Name)
+				r := f.fresh()
+				f.declared["err_ok"]++
+				okName := "err_ok"
+				if f.declared["err_ok"] > 1 {
+					okName = fmt.Sprintf("err_ok_%d", f.declared["err_ok"])
+				}
+				if obj := f.pi.p.TypesInfo.Defs[e]; obj != nil {
+					f.hdr.errOk[obj] = okName
+				}
+				return []irStmt{irBind{r, term{"(to_int " + a + ")", true}}, irBind{f.nameOf(v), term{"(val_or 0 " + r + ")", true}}, irBind{okName, term{"(is_ok " + r + ")", true}}}, true
+			}
+		}
 	}
 	call, ok := x.Rhs[0].(*ast.CallExpr)
 	v, vok := x.Lhs[0].(*ast.Ident)
@@ -855,7 +966,7 @@ func genKeyFuncs(ps []pkgInfo) string {
 	if pi == nil {
 		return b.String()
 	}
-	for _, m := range []string{"Kty", "Kid", "Alg", "BaseIV"} {
+	for _, m := range []string{"Kty", "Kid", "Alg", "BaseIV", "Ops"} {
 		name := "key_Key_" + m
 		stub := func(why string) {
 			fmt.Fprintln(os.Stderr, "gen: T14:", name, "not translated:", why)
@@ -879,7 +990,12 @@ func genKeyFuncs(ps []pkgInfo) string {
 			continue
 		}
 		f := &ftr{pi: *pi, all: ps, fd: fd, declared: map[string]int{}, byteVars: map[string]string{}, names: map[types.Object]string{},
-			hdr: &hdrCtx{recv: fd.Recv.List[0].Names[0].Name, keyMode: true, errOk: map[types.Object]string{}}}
+			hdr: &hdrCtx{recv: fd.Recv.List[0].Names[0].Name, keyMode: true, errOk: map[types.Object]string{}, nilable: map[string]bool{}}}
+		if m == "Ops" {
+			// a key.Ops result may be the nil slice, which callers tell from an empty one
+			rt = "(option (list Z))"
+			f.hdr.opsRet = true
+		}
 		for _, r := range []string{"k", "k_nil"} {
 			f.declared[r] = 1
 		}
